@@ -745,7 +745,7 @@ func c08R2(c *Ctx) {
 				c.ok("C08.R2", key, i.Pos(), "edits a fresh or cloned header map")
 			case origin == "live" && strings.EqualFold(keyName, forwardHeader) && what == "Set":
 				c.ok("C08.R2", key, i.Pos(), "the forward marker (C06.R2)")
-			case origin == "live" && fn.Name() == "errorResponse":
+			case origin == "live" && baseName(fn) == "errorResponse":
 				c.ok("C08.R2", key, i.Pos(), "piko's own error response")
 			case origin == "param":
 				// classify every call site's argument
@@ -787,7 +787,7 @@ func errorResponseStatus(i ssa.Instruction) (int64, bool) {
 		return 0, false
 	}
 	cal := cl.Call.StaticCallee()
-	if cal == nil || cal.Name() != "errorResponse" || !inModule(cal) {
+	if cal == nil || baseName(cal) != "errorResponse" || !inModule(cal) {
 		return 0, false
 	}
 	st, ok := constInt(cl.Call.Args[1])
@@ -818,7 +818,7 @@ func c08R3(c *Ctx) {
 		}
 		paths, _ := enumPathsAt(fn.Blocks[0], 0, func(i ssa.Instruction) bool {
 			cl, ok := i.(*ssa.Call)
-			return ok && cl.Call.StaticCallee() != nil && cl.Call.StaticCallee().Name() == "errorResponse" && inModule(cl.Call.StaticCallee())
+			return ok && cl.Call.StaticCallee() != nil && baseName(cl.Call.StaticCallee()) == "errorResponse" && inModule(cl.Call.StaticCallee())
 		}, nil, nil, 100)
 		bad := ""
 		nAlt := 0
@@ -1166,7 +1166,7 @@ func c08ErrorBody(c *Ctx) {
 	p := c.P
 	n := 0
 	for _, fn := range p.ModFuncs {
-		if isTestFile(p.Fset, fn.Pos()) || fn.Name() != "errorResponse" || fn.Parent() != nil || len(fn.Params) < 2 {
+		if isTestFile(p.Fset, fn.Pos()) || baseName(fn) != "errorResponse" || fn.Parent() != nil || len(fn.Params) < 2 {
 			continue
 		}
 		n++
